@@ -210,7 +210,19 @@ func (e *Enc) run() {
 					e.dbg[obj.Name()] = append(e.dbg[obj.Name()], dbgRef{b.Index, x.X, x.IsAddr, x.Pos()})
 				}
 			case *ssa.Defer:
-				e.hasDefer = true
+				// a deferred call of a closure of this function (or of a function) whose contract says `pure` writes
+				// nothing when it runs; anything else may write whatever a callee can reach
+				callee := x.Common().StaticCallee()
+				if callee == nil {
+					if mc, ok := x.Common().Value.(*ssa.MakeClosure); ok {
+						callee, _ = mc.Fn.(*ssa.Function)
+					}
+				}
+				if ct := e.contractFor(funcKey(callee)); callee == nil || ct == nil || !ct.Pure {
+					e.hasDefer = true
+				} else if ct.Trusted != "" {
+					e.assumptions["deferred call "+shortKey(funcKey(callee))+" writes no memory of the program (trusted): "+ct.Trusted] = true
+				}
 			}
 		}
 	}
@@ -224,6 +236,7 @@ func (e *Enc) run() {
 		e.params[fv.Name()] = v
 	}
 	e.findLoops()
+	e.remapLoops()
 	e.computeNonEscaping()
 	e.computeFreshEscapes()
 	// requires
@@ -713,6 +726,9 @@ func (e *Enc) loopModifies(li *loopInfo) *loopMods {
 				if os.Getenv("GOVC_NOCELLS") == "" && e.callCells(x, inLoop, lm) {
 					continue
 				}
+				// whatever else the call writes, the ghost variables its contract updates change in the loop (they are
+				// exempt from the havoc of everything a callee can reach, so they must be recorded one by one)
+				e.ghostCellsOf(x, lm)
 				eff := e.callEffect(x)
 				if eff.all {
 					lm.all = true
@@ -925,7 +941,7 @@ func (e *Enc) loopHead(li *loopInfo, st *State, phiIn map[ssa.Value]Val) {
 	b := li.head
 	reach := e.reach[b.Index]
 	li.preState = st.clone()
-	lname := fmt.Sprintf("loop%d", li.ordinal)
+	lname := fmt.Sprintf("loop%d", li.cord())
 	invs := e.loopInvariants(li)
 	// 1. initiation
 	if len(invs) > 0 {
@@ -1089,7 +1105,7 @@ func (e *Enc) loopHead(li *loopInfo, st *State, phiIn map[ssa.Value]Val) {
 				return e.loopEnv(li, stc)
 			})
 		}
-		if dc, ok := e.Ct.LoopDec[li.ordinal]; ok {
+		if dc, ok := e.Ct.LoopDec[li.cord()]; ok {
 			d := e.evalExpr(dc.Expr, env)
 			if !d.Bad && len(d.L) == 1 {
 				li.decTerm = e.def(e.fresh("variant"), SI, e.coerceInt(d, SI))
@@ -1119,7 +1135,7 @@ func (e *Enc) loopInvariants(li *loopInfo) []Clause {
 	if e.Ct == nil {
 		return nil
 	}
-	return e.Ct.LoopInv[li.ordinal]
+	return e.Ct.LoopInv[li.cord()]
 }
 
 // autoInvariants: for phi with a constant initial value c and back-edge values of the form phi+k (k>0 const),
@@ -1196,7 +1212,7 @@ func (e *Enc) backEdge(from, head *ssa.BasicBlock, st *State) {
 	if len(invs) == 0 && len(li.cands) == 0 {
 		return
 	}
-	lname := fmt.Sprintf("loop%d", li.ordinal)
+	lname := fmt.Sprintf("loop%d", li.cord())
 	idx := -1
 	for i, p := range head.Preds {
 		if p == from {
@@ -1238,7 +1254,7 @@ func (e *Enc) backEdge(from, head *ssa.BasicBlock, st *State) {
 		e.inlineSubst, e.inlineHead, e.inlineState = nil, nil, nil
 		return
 	}
-	if dc, ok := e.Ct.LoopDec[li.ordinal]; ok && li.decTerm != "" {
+	if dc, ok := e.Ct.LoopDec[li.cord()]; ok && li.decTerm != "" {
 		d := e.evalExpr(dc.Expr, env)
 		if !d.Bad && len(d.L) == 1 {
 			d1 := e.coerceInt(d, SI)
@@ -1304,7 +1320,7 @@ func (e *Enc) candidateInvariants(li *loopInfo, phiIn map[ssa.Value]Val, st *Sta
 		return
 	}
 	b := li.head
-	lname := fmt.Sprintf("loop%d", li.ordinal)
+	lname := fmt.Sprintf("loop%d", li.cord())
 	for _, ins := range b.Instrs {
 		phi, ok := ins.(*ssa.Phi)
 		if !ok {
@@ -1444,4 +1460,181 @@ func phiMattersForSafety(phi *ssa.Phi) bool {
 		return false
 	}
 	return walk(phi, 0)
+}
+
+// cord: the ordinal under which the contract speaks about this loop (see remapLoops); normally the loop's own.
+func (li *loopInfo) cord() int {
+	if li.contractOrd != 0 {
+		return li.contractOrd
+	}
+	return li.ordinal
+}
+
+// remapLoops makes `loop N` clauses robust against a loop being added or removed earlier in the function: loops are
+// numbered in source order, so such an edit shifts the ordinals. When the clauses written for loop N name a local
+// variable that does not exist at loop N (it is neither referenced inside that loop nor defined before it), they are
+// bound to the nearest other loop at which all their local names do exist, if there is exactly one best candidate not
+// claimed by another clause group. Obligation names keep the contract's ordinal. Nothing changes when the names resolve.
+func (e *Enc) remapLoops() {
+	if e.Ct == nil || (len(e.Ct.LoopInv) == 0 && len(e.Ct.LoopDec) == 0) {
+		return
+	}
+	byOrd := map[int]*loopInfo{}
+	for _, li := range e.loops {
+		byOrd[li.ordinal] = li
+	}
+	ordSet := map[int]bool{}
+	for n := range e.Ct.LoopInv {
+		ordSet[n] = true
+	}
+	for n := range e.Ct.LoopDec {
+		ordSet[n] = true
+	}
+	var ords []int
+	for n := range ordSet {
+		ords = append(ords, n)
+	}
+	sort.Ints(ords)
+	localNames := func(n int) []string {
+		set := map[string]bool{}
+		var exprs []ast.Expr
+		for _, c := range e.Ct.LoopInv[n] {
+			exprs = append(exprs, c.Expr)
+		}
+		if dc, ok := e.Ct.LoopDec[n]; ok {
+			exprs = append(exprs, dc.Expr)
+		}
+		for _, x := range exprs {
+			ast.Inspect(x, func(nd ast.Node) bool {
+				switch y := nd.(type) {
+				case *ast.SelectorExpr:
+					ast.Inspect(y.X, func(z ast.Node) bool {
+						if id, ok := z.(*ast.Ident); ok {
+							set[id.Name] = true
+						}
+						return true
+					})
+					return false
+				case *ast.Ident:
+					set[y.Name] = true
+				}
+				return true
+			})
+		}
+		var out []string
+		for name := range set {
+			if _, isLocal := e.dbg[name]; !isLocal {
+				continue
+			}
+			if _, isParam := e.params[name]; isParam {
+				continue
+			}
+			out = append(out, name)
+		}
+		sort.Strings(out)
+		return out
+	}
+	resolves := func(name string, li *loopInfo) bool {
+		for _, ins := range li.head.Instrs {
+			if phi, ok := ins.(*ssa.Phi); ok && phi.Comment == name {
+				return true
+			}
+		}
+		for _, r := range e.dbg[name] {
+			if li.blocks[r.block] || e.Fn.Blocks[r.block].Dominates(li.head) {
+				return true
+			}
+		}
+		return false
+	}
+	allResolve := func(names []string, li *loopInfo) bool {
+		for _, n := range names {
+			if !resolves(n, li) {
+				return false
+			}
+		}
+		return true
+	}
+	claimed := map[int]bool{} // loop ordinals bound to a clause group
+	var pending []int
+	for _, n := range ords {
+		if li := byOrd[n]; li != nil && allResolve(localNames(n), li) {
+			claimed[n] = true
+			continue
+		}
+		pending = append(pending, n)
+	}
+	for _, n := range pending {
+		names := localNames(n)
+		best, bestDist, ties := 0, 1<<30, 0
+		for m, li := range byOrd {
+			if claimed[m] || !allResolve(names, li) {
+				continue
+			}
+			d := m - n
+			if d < 0 {
+				d = -d
+			}
+			if d < bestDist {
+				best, bestDist, ties = m, d, 1
+			} else if d == bestDist {
+				ties++
+			}
+		}
+		if best != 0 && ties == 1 {
+			claimed[best] = true
+			byOrd[best].contractOrd = n
+			if e.pass == 2 {
+				fmt.Fprintf(os.Stderr, "note: %s: clauses of `loop %d` bound to loop %d (the names %v do not exist at loop %d: a loop was added or removed before it)\n", e.fnName, n, best, names, n)
+			}
+		}
+	}
+	// a loop whose own ordinal is claimed by a shifted group must not pick up that group's clauses as well
+	for m, li := range byOrd {
+		if li.contractOrd == 0 && ordSet[m] && !claimed[m] {
+			li.contractOrd = -1
+		}
+	}
+}
+
+// ghostCellsOf records, as cells written in the loop, the ghost variables that the contract of the called function
+// lists under `modifies`.
+func (e *Enc) ghostCellsOf(c ssa.CallInstruction, lm *loopMods) {
+	callee, key := e.calleeOf(c)
+	ct := e.contractFor(key)
+	if ct == nil {
+		return
+	}
+	pkg := e.Pkg
+	if callee != nil && callee.Pkg != nil {
+		pkg = callee.Pkg
+	}
+	for _, mc := range ct.Modifies {
+		id, ok := mc.Expr.(*ast.Ident)
+		if !ok {
+			continue
+		}
+		gt, isGhost := e.CS.Ghosts[id.Name]
+		if !isGhost {
+			continue
+		}
+		t := e.resolveType(pkg, gt)
+		if t == nil {
+			t = e.resolveType(e.Pkg, gt)
+		}
+		if t == nil {
+			// unknown type: every ghost cell sort at that object becomes arbitrary
+			for s := range e.knownSorts {
+				lm.cells[s] = append(lm.cells[s], [3]string{e.ghostObj(id.Name), e.M.ilit(0), e.M.ilit(64)})
+			}
+			lm.ghostCells = true
+			continue
+		}
+		sorts := map[Sort]bool{}
+		e.allSorts(t, sorts)
+		for s := range sorts {
+			lm.cells[s] = append(lm.cells[s], [3]string{e.ghostObj(id.Name), e.M.ilit(0), e.M.ilit(slots(t))})
+		}
+		lm.ghostCells = true
+	}
 }
